@@ -319,18 +319,22 @@ def case_factory(ctx, c, classes):
         return u * numpy.power(numpy.where(faf > 0, faf, 1.0), -alpha)
     alpha = float(g.choice([0.0, 0.3, 0.5, 1.0]))
     SP = [None]      # candidate list handed to the subset problems (None = all taxa in order)
+    EX = [{}]        # declared transformations / weights handed through the factory
+    MW = numpy.abs(u); TA = Z / 2.0; TF = (u > 0).astype(float)      # sparse absolute effects: zero weights not shared by all traits
     table = {
-        "EstimatedBreedingValue": (lambda cl, enc, k: cl.from_bvmat(bvmat=bv, unscale=True, **common(enc, n, k, t, space=SP[0])), lambda cc: -(cc @ raw), "from_bvmat"),
-        "GenomicEstimatedBreedingValue": (lambda cl, enc, k: cl.from_gmat_gpmod(gmat=pg, gpmod=mod, unscale=True, **common(enc, n, k, t, space=SP[0])), lambda cc: -(cc @ (Z @ u + beta[0])), "from_gmat_gpmod"),
-        "GeneralizedWeightedGenomicEstimatedBreedingValue": (lambda cl, enc, k: cl.from_gmat_algpmod(gmat=un, algpmod=mod, alpha=alpha, **common(enc, n, k, t, space=SP[0])), lambda cc: -(cc @ (Z @ wt(alpha))), "from_gmat_algpmod"),
-        "WeightedGenomic": (lambda cl, enc, k: cl.from_gmat_algpmod(gmat=un, algpmod=mod, **common(enc, n, k, t, space=SP[0])), lambda cc: -(cc @ (Z @ wt(0.5))), "from_gmat_algpmod"),
-        "OptimalContribution": (lambda cl, enc, k: cl.from_bvmat_gmat(bvmat=bv, gmat=pg, cmatfcty=DenseMolecularCoancestryMatrixFactory(), unscale=True, **common(enc, n, k, 1 + t, space=SP[0])),
+        "EstimatedBreedingValue": (lambda cl, enc, k: cl.from_bvmat(bvmat=bv, unscale=True, **common(enc, n, k, t, space=SP[0], **EX[0])), lambda cc: -(cc @ raw), "from_bvmat"),
+        "GenomicEstimatedBreedingValue": (lambda cl, enc, k: cl.from_gmat_gpmod(gmat=pg, gpmod=mod, unscale=True, **common(enc, n, k, t, space=SP[0], **EX[0])), lambda cc: -(cc @ (Z @ u + beta[0])), "from_gmat_gpmod"),
+        "GeneralizedWeightedGenomicEstimatedBreedingValue": (lambda cl, enc, k: cl.from_gmat_algpmod(gmat=un, algpmod=mod, alpha=alpha, **common(enc, n, k, t, space=SP[0], **EX[0])), lambda cc: -(cc @ (Z @ wt(alpha))), "from_gmat_algpmod"),
+        "WeightedGenomic": (lambda cl, enc, k: cl.from_gmat_algpmod(gmat=un, algpmod=mod, **common(enc, n, k, t, space=SP[0], **EX[0])), lambda cc: -(cc @ (Z @ wt(0.5))), "from_gmat_algpmod"),
+        "OptimalContribution": (lambda cl, enc, k: cl.from_bvmat_gmat(bvmat=bv, gmat=pg, cmatfcty=DenseMolecularCoancestryMatrixFactory(), unscale=True, **common(enc, n, k, 1 + t, space=SP[0], **EX[0])),
                                 lambda cc: numpy.r_[numpy.sqrt(cc @ K @ cc), -(cc @ raw)], "from_bvmat_gmat"),
-        "MeanExpectedHeterozygosity": (lambda cl, enc, k: cl.from_gmat(gmat=pg, cmatfcty=DenseMolecularCoancestryMatrixFactory(), **common(enc, n, k, 1, space=SP[0])),
+        "MeanExpectedHeterozygosity": (lambda cl, enc, k: cl.from_gmat(gmat=pg, cmatfcty=DenseMolecularCoancestryMatrixFactory(), **common(enc, n, k, 1, space=SP[0], **EX[0])),
                                        lambda cc: numpy.r_[-(1 - numpy.sqrt(cc @ K @ cc))], "from_gmat"),
-        "MeanGenomicRelationship": (lambda cl, enc, k: cl.from_gmat(gmat=pg, cmatfcty=DenseMolecularCoancestryMatrixFactory(), **common(enc, n, k, 1, space=SP[0])),
+        "MeanGenomicRelationship": (lambda cl, enc, k: cl.from_gmat(gmat=pg, cmatfcty=DenseMolecularCoancestryMatrixFactory(), **common(enc, n, k, 1, space=SP[0], **EX[0])),
                                     lambda cc: numpy.r_[numpy.sqrt(cc @ K @ cc)], "from_gmat"),
-        "FamilyEstimatedBreedingValue": (lambda cl, enc, k: cl.from_bvmat(bvmat=bv, **common(enc, n, k, t + len(fams), space=SP[0])),
+        "L1NormGenomic": (lambda cl, enc, k: cl.from_numpy(mkrwt=MW, tafreq=TA, tfreq=TF, **common(enc, n, k, t, space=SP[0], **EX[0])),
+                          lambda cc: numpy.array([numpy.abs(MW[:, i] * (cc @ TA - TF[:, i])).sum() for i in range(t)]), "from_numpy"),
+        "FamilyEstimatedBreedingValue": (lambda cl, enc, k: cl.from_bvmat(bvmat=bv, **common(enc, n, k, t + len(fams), space=SP[0], **EX[0])),
                                          lambda cc: numpy.r_[-(cc @ bv.mat), -numpy.array([cc[fam_ids == f].sum() for f in fams])], "from_bvmat"),
     }
     fam = list(table)[c % len(table)]
@@ -352,11 +356,40 @@ def case_factory(ctx, c, classes):
             others = numpy.setdiff1d(numpy.arange(n), members)
             SP[0] = g.permutation(numpy.r_[members, others[g.random(len(others)) < 0.5]]).astype("int64")
             ecls += "/restricted candidate list in arbitrary order"
+        # half of the problems declare their own transformations, weights and (pairwise different) keyword arguments at the factory
+        nlat = len(expected); declared = g.random() < 0.5
+        if declared:
+            nob = {"OptimalContribution": 1 + t, "MeanExpectedHeterozygosity": 1, "MeanGenomicRelationship": 1, "FamilyEstimatedBreedingValue": t + len(fams)}.get(fam, t)
+            To = Rec(g.normal(size=(nob, nlat))); Ti = Rec(g.normal(size=(1, nlat)), off=float(g.normal()), relu=True); Te = Rec(g.normal(size=(1, nlat)))
+            wo = g.choice([-2.0, -1.0, 1.0, 0.5], nob); wi = g.uniform(0.5, 2.0, 1); we = g.uniform(0.5, 2.0, 1)
+            kws = [{"tag": "obj", "a": int(g.integers(100))}, {"tag": "ineq", "b": int(g.integers(100))}, {"tag": "eq", "c": int(g.integers(100))}]
+            EX[0] = dict(obj_wt=wo, obj_trans=To, obj_trans_kwargs=kws[0], nineqcv=1, ineqcv_wt=wi, ineqcv_trans=Ti, ineqcv_trans_kwargs=kws[1],
+                         neqcv=1, eqcv_wt=we, eqcv_trans=Te, eqcv_trans_kwargs=kws[2])
+        else:
+            EX[0] = {}
         try:
             prob = build(classes[cname], enc, k)
-            lat = numpy.asarray(prob.latentfn(render(enc, cnt, g)), dtype=float)
+            xdec = render(enc, cnt, g)
+            lat = numpy.asarray(prob.latentfn(xdec), dtype=float)
         except Exception as e:
             ctx.raised("%s.%s" % (cname, fname), e); continue
+        if declared:
+            try:
+                o_, gi_, hi_ = prob.evalfn(xdec)
+                eo = wo * (To.A @ expected); ei = wi * numpy.maximum(Ti.A @ expected + Ti.off, 0.0); ee = we * (Te.A @ expected)
+                if tolK:     # documented jitter on the kinship diagonal: values to 1e-4, keyword arguments exactly
+                    def near_(a_, b_):
+                        a_ = numpy.asarray(a_, dtype=float); b_ = numpy.asarray(b_, dtype=float)
+                        return (a_.shape == b_.shape and bool(numpy.all(numpy.abs(a_ - b_) <= 1e-4 * (1 + numpy.abs(b_)))),)
+                else:
+                    near_ = near
+                good = near_(o_, eo)[0] and near_(gi_, ei)[0] and near_(hi_, ee)[0]
+                kwok = all(len(T.calls) >= 1 and T.calls[-1][2] == kw_ for T, kw_ in zip((To, Ti, Te), kws))
+                ctx.check("C05.evalfn", good and kwok, "%s.%s" % (cname, fname), "objectives/violations == weights x transformations(decision, latent) as declared at the factory",
+                          "%s encoding" % enc, witness={"class": cname, "x": xdec, "got": [o_, gi_, hi_], "expected": [eo, ei, ee],
+                                                        "kwargs_received": [T.calls[-1][2] if T.calls else None for T in (To, Ti, Te)], "kwargs_declared": kws}, coords=[c, "fcty"])
+            except Exception as e:
+                ctx.raised("%s.%s evalfn" % (cname, fname), e)
         if lat.shape != expected.shape:
             ok = False
         elif tolK:
